@@ -857,6 +857,10 @@ def _shapes_c13_7(tier):
                     continue
                 out.append(dict(how=how, version=list(version),
                                 second=second))
+    # with an authenticated client: the resumed connection keeps its identity
+    for how in ("id", "ticket"):
+        out.append(dict(how=how, version=[3, 3], second="honest",
+                        client_auth=True))
     return out
 
 
@@ -901,7 +905,9 @@ def c13_7(I, shape):
         return P.settings12(version, "ecdhe_rsa", cipher, "sha", **kw)
     cache = SessionCache() if how == "id" else None
     tk = dict(ticketKeys=[key1], ticket_count=1) if how == "ticket" else {}
+    cauth = bool(shape.get("client_auth"))
     sc = P.Scenario(I, PAIR_RND13C, mk(), mk(**tk), server_cred="rsa",
+                    client_cred="ecdsa" if cauth else None, req_cert=cauth,
                     intctxt=True)
     sc.server_kwargs["sessionCache"] = cache
     sc.client_kwargs["serverName"] = "host.example"
@@ -955,6 +961,7 @@ def c13_7(I, shape):
         t[pos] = v
         tkt.ticket = t
     sc2 = P.Scenario(I, PAIR_RND13C, cset2, sset2, server_cred="rsa",
+                     client_cred="ecdsa" if cauth else None, req_cert=cauth,
                      intctxt=True, reset=False)
     sc2.server_kwargs["sessionCache"] = cache
     sc2.client_kwargs["serverName"] = sname2
@@ -1012,6 +1019,10 @@ def c13_7(I, shape):
                 "resumed-etm-is-the-original")
         I.check(s2.session.serverName == "host.example",
                 "resumed-server-name-is-the-original")
+        if cauth:
+            I.check(s2.session.clientCertChain is not None and
+                    P.fp(s2.session.clientCertChain) == P.fp(sc.cli_chain),
+                    "resumed-connection-keeps-the-client-identity")
     for src, dst, msg in ((c2, s2, b"ping"), (s2, c2, b"pong!")):
         for r in src.writeAsync(bytearray(msg)):
             pass
@@ -1023,3 +1034,145 @@ def c13_7(I, shape):
         I.check(got is not None and bytes(got) == msg,
                 "application-data-delivered-intact",
                 detail=lambda: dict(got=repr(got)))
+
+
+# ---------------------------------------------------------------------------
+# C13.8  a fatal error invalidates the session for every later attempt
+# ---------------------------------------------------------------------------
+import copy as _copy
+
+
+def _shapes_c13_8(tier):
+    out = []
+    for how in ("id", "ticket12", "ticket13"):
+        for when in ("first", "resumed"):
+            out.append(dict(how=how, when=when))
+    return out
+
+
+def _break_connection(I, sender, receiver):
+    """one record from sender with a corrupted integrity value: the receiver
+    fails with a fatal alert, the sender reads that alert"""
+    sock = sender.sock.socket
+    wire = sock.wire
+    old = wire.mitm
+    hit = []
+
+    def mitm(who, off, data):
+        if who == sock.who and not hit:
+            data = newbuf(list(data))
+            data[len(data) - 1] = data[len(data) - 1] ^ 0x01
+            hit.append(1)
+        return data
+    wire.mitm = mitm
+    for r in sender.writeAsync(bytearray(b"data")):
+        pass
+    wire.mitm = old
+    err = []
+    for conn in (receiver, sender):
+        try:
+            for r in conn.readAsync(max=8, min=1):
+                if r in (0, 1) and isinstance(r, int):
+                    break
+        except Exception as e:
+            err.append(e)
+    return err
+
+
+@obligation("C13.8", _shapes_c13_8,
+            functions=["tlslite.tlsrecordlayer:TLSRecordLayer._shutdown",
+                       "tlslite.tlsrecordlayer:TLSRecordLayer._sendError",
+                       "tlslite.session:Session.valid",
+                       "tlslite.session:Session._setResumable",
+                       "tlslite.sessioncache:SessionCache.__getitem__",
+                       "tlslite.tlsconnection:TLSConnection."
+                       "_serverGetClientHello",
+                       "tlslite.tlsconnection:TLSConnection."
+                       "_clientSendClientHello"],
+            assumes=P.PAIR_ASSUMES + [
+                "history: full handshake, (optionally a resumed connection,) "
+                "a record with a corrupted integrity value on the last "
+                "connection -> fatal alert on both sides, then a new attempt "
+                "(a) by the same client with the same Session object and (b) "
+                "by a client that kept a copy of the session state from "
+                "before the error; fixed randoms, stub clock"],
+            patches=_pair_patches13c, max_paths=200, timeout=(600, 1800),
+            also=("C17",))
+def c13_8(I, shape):
+    """after a fatal alert neither side resumes that session again: the
+    client no longer offers it, and a server with a session cache answers an
+    offer of its id with a full handshake"""
+    how, when = shape["how"], shape["when"]
+    CLOCK.now = 1700000000.0
+    key1 = bytearray(b"K" * 32)
+    tls13 = how == "ticket13"
+
+    def mk(**kw):
+        if tls13:
+            return P.settings13(**kw)
+        return P.settings12((3, 3), "ecdhe_rsa", "aes128gcm", **kw)
+    tk = dict(ticketKeys=[key1], ticket_count=1) if how != "id" else {}
+    cache = SessionCache() if how == "id" else None
+
+    def connect(session, reset):
+        sc = P.Scenario(I, PAIR_RND13C, mk(), mk(**tk), server_cred="rsa",
+                        intctxt=True, reset=reset)
+        sc.server_kwargs["sessionCache"] = cache
+        if session is not None:
+            sc.client_kwargs["session"] = session
+        sc.run()
+        return sc
+    sc1 = connect(None, True)
+    I.check(sc1.both_completed(), "first-handshake-completes",
+            detail=lambda: dict(c=repr(sc1.cep.error), s=repr(sc1.sep.error),
+                                crash=sc1.cep.crash or sc1.sep.crash))
+    if not sc1.both_completed():
+        return
+    if tls13:
+        for r in sc1.c.readAsync(max=1, min=0):
+            if r in (0, 1) and isinstance(r, int):
+                break
+    sess = sc1.c.session
+    last = sc1
+    if when == "resumed":
+        sc2 = connect(sess, False)
+        I.check(sc2.both_completed() and sc2.c.resumed,
+                "second-connection-resumes",
+                detail=lambda: dict(c=repr(sc2.cep.error),
+                                    s=repr(sc2.sep.error)))
+        if not (sc2.both_completed() and sc2.c.resumed):
+            return
+        if tls13:
+            for r in sc2.c.readAsync(max=1, min=0):
+                if r in (0, 1) and isinstance(r, int):
+                    break
+        last = sc2
+    kept = _copy.copy(last.c.session)
+    kept.tickets = list(getattr(last.c.session, "tickets", None) or [])
+    kept.tls_1_0_tickets = list(
+        getattr(last.c.session, "tls_1_0_tickets", None) or [])
+    errs = _break_connection(I, last.c, last.s)
+    I.check(len(errs) == 2, "both-sides-saw-a-fatal-error",
+            detail=lambda: dict(errs=[repr(e) for e in errs]))
+    I.check(not last.c.session.valid() if last.c.session else True,
+            "client-session-no-longer-valid-after-a-fatal-alert")
+    I.check(last.s.session is None or not last.s.session.resumable,
+            "server-session-not-resumable-after-a-fatal-alert")
+    # (a) the same client tries again with the same object
+    sc3 = connect(last.c.session, False)
+    I.check(sc3.both_completed(), "next-attempt-completes",
+            detail=lambda: dict(c=repr(sc3.cep.error), s=repr(sc3.sep.error),
+                                crash=sc3.cep.crash or sc3.sep.crash))
+    if sc3.both_completed():
+        I.check(not sc3.c.resumed and not sc3.s.resumed,
+                "invalidated-session-not-resumed-by-its-client")
+    # (b) a client that kept the state from before the error (id cache only:
+    # a stateless ticket server cannot revoke)
+    if how == "id":
+        sc4 = connect(kept, False)
+        I.check(sc4.both_completed(), "attempt-with-kept-state-completes",
+                detail=lambda: dict(c=repr(sc4.cep.error),
+                                    s=repr(sc4.sep.error)))
+        if sc4.both_completed():
+            I.check(not sc4.s.resumed and not sc4.c.resumed,
+                    "server-cache-does-not-resume-an-invalidated-session")
